@@ -86,6 +86,9 @@ def _constants(draw):
     fam = M.family(M.get(method))
     slow = fam in ("implicit_fixed", "implicit_embedded", "richardson")
     t0, tf = draw(traj.span(max_len=3.0))
+    if abs(tf - t0) > 6.0:
+        # (the "backward to zero" class of spans can be hundreds of time units long: runs of this part carry no step cap)
+        tf = t0 + (3.0 if tf > t0 else -3.0)
     L = abs(tf - t0)
     frac = draw(st.sampled_from([1 / 8.0, 1 / 16.0, 0.1, 0.3] if slow else [1 / 8.0, 1 / 16.0, 1 / 32.0, 0.1, 0.3]))
     w = draw(st.sampled_from([1.0, 0.5, 2.0])) / max(1.0, L)
